@@ -207,6 +207,9 @@ func (c *ConfigFile) validateCommonFields() (*ConfigFile, error) {
 	if c.Limits.Concurrency == nil {
 		return nil, errors.New("missing concurrency")
 	}
+	if *c.Limits.Concurrency < 1 {
+		return nil, fmt.Errorf("concurrency %d can't be less than 1", *c.Limits.Concurrency)
+	}
 	if c.Limits.MaxIterations == nil {
 		return nil, errors.New("missing max-iterations")
 	}
@@ -265,6 +268,10 @@ func (s *Stage) validateConstantStage(idx int, defaults Stage) (*Stage, error) {
 	if s.Jitter == nil {
 		s.Jitter = defaults.Jitter
 	}
+	if s.Jitter == nil {
+		noJitter := 0.0
+		s.Jitter = &noJitter
+	}
 	if s.Parameters == nil {
 		if defaults.Parameters == nil {
 			s.Parameters = &map[string]string{}
@@ -298,6 +305,10 @@ func (s *Stage) validateRampStage(idx int, defaults Stage) (*Stage, error) {
 	if s.Jitter == nil {
 		s.Jitter = defaults.Jitter
 	}
+	if s.Jitter == nil {
+		noJitter := 0.0
+		s.Jitter = &noJitter
+	}
 	if s.Parameters == nil {
 		if defaults.Parameters == nil {
 			s.Parameters = &map[string]string{}
@@ -330,6 +341,10 @@ func (s *Stage) validateStagedStage(idx int, defaults Stage) (*Stage, error) {
 	}
 	if s.Jitter == nil {
 		s.Jitter = defaults.Jitter
+	}
+	if s.Jitter == nil {
+		noJitter := 0.0
+		s.Jitter = &noJitter
 	}
 	if s.Parameters == nil {
 		if defaults.Parameters == nil {
@@ -388,6 +403,10 @@ func (s *Stage) validateGaussianStage(idx int, defaults Stage) (*Stage, error) {
 	if s.Jitter == nil {
 		s.Jitter = defaults.Jitter
 	}
+	if s.Jitter == nil {
+		noJitter := 0.0
+		s.Jitter = &noJitter
+	}
 	if s.Parameters == nil {
 		if defaults.Parameters == nil {
 			s.Parameters = &map[string]string{}
@@ -406,6 +425,9 @@ func (s *Stage) validateUsersStage(idx int, defaults Stage) (*Stage, error) {
 		}
 
 		s.Concurrency = defaults.Concurrency
+	}
+	if *s.Concurrency < 1 {
+		return nil, fmt.Errorf("users %d can't be less than 1 at stage %d", *s.Concurrency, idx)
 	}
 	if s.Parameters == nil {
 		if defaults.Parameters == nil {
